@@ -186,13 +186,21 @@ def crash_oracle(case, obs):
                         e = FC.peer_end(obs, task, before["hosts"][1]["starts"] - 1)
                         if e is None and task == "C" and case["cfg"].get("tcp_capacity", 64) < 3:
                             # C writes 3 records to a peer that never reads: with a window of 1 or 2 segments
-                            # it is blocked in write_all on flow-control credits when the server dies
+                            # it is blocked in write_all on flow-control credits when the server dies.
+                            # Fix df5434b repaired the case in which the server holds the data unread when it dies (its
+                            # RST now wakes the writer). What remains of the known finding WriterBlockedFullWindow:
+                            # the data that fills the window is still in flight at the crash, the server's stream
+                            # closes gracefully (FIN), the data reaches a crashed host that never answers it.
                             out.append(("event %d (%s n0): client task C is blocked in write_all on a full send window (tcp_capacity %d) "
-                                        "to the crashed server and is never woken by its reset" % (k, name, case["cfg"].get("tcp_capacity")), K_WRITER))
+                                        "to the crashed server and is never woken" % (k, name, case["cfg"].get("tcp_capacity")), K_WRITER))
                         elif e is None:
                             out.append(("event %d (%s n0): client task %s was connected to port %d and is still blocked at the end of the run" % (k, name, task, port), None))
                         elif e[2] > k and steps_between(evs, k, e[2]) > slack:
-                            out.append(("event %d (%s n0): client task %s was unblocked only %d steps later" % (k, name, task, steps_between(evs, k, e[2])), None))
+                            # task C with a full window and its data in flight at the crash is only answered (RST) once
+                            # the host is bounced and processes the segment: same residual known finding as above
+                            late_c = task == "C" and case["cfg"].get("tcp_capacity", 64) < 3
+                            out.append(("event %d (%s n0): client task %s was unblocked only %d steps later" % (k, name, task, steps_between(evs, k, e[2])),
+                                        K_WRITER if late_c else None))
                         elif e[2] > k and e[0] not in ("eof", "UnexpectedEof", "ConnectionReset", "BrokenPipe"):
                             out.append(("event %d (%s n0): client task %s ended with %s" % (k, name, task, e[0]), None))
                 # the burst port: both clients (peek + read_exact, plain reads) must reach the end of
